@@ -187,6 +187,69 @@ def c_gmm(ctx, case):
         check_gmm_valid(ctx, g, X, case["count_floor"], init["floors"], "%s model after iteration %d" % (case["trainer"], k))
 
 
+# ---------------------------------------------------------------------------- many features
+
+def g_wide(draw):
+    r = gen.rng(draw)
+    F = gen.integer(draw, 16, 48)
+    C = gen.choice(draw, [2, 3, 4])
+    n = gen.integer(draw, 3, 24)
+    scale = 10.0 ** gen.choice(draw, [0, 0, -3, 3, 7, -6])
+    kind = gen.choice(draw, ["const_cols", "few_distinct", "plain", "dupes"])
+    base = r.normal(0, 1, (n, F))
+    if kind == "const_cols":
+        m = r.random(F) < gen.choice(draw, [0.5, 0.9, 1.0])
+        base[:, m] = r.normal(0, 1, int(m.sum()))[None, :]
+    elif kind == "few_distinct":
+        d = gen.integer(draw, 1, C)
+        base = r.normal(0, 1, (d, F))[r.integers(0, d, n)]
+    elif kind == "dupes":
+        for _ in range(n):
+            base[r.integers(0, n)] = base[r.integers(0, n)]
+    X = scale * (gen.choice(draw, [0.0, 5.0]) + base)
+    return {"X": X, "C": C, "scale": scale, "kind": kind, "K": gen.integer(draw, 1, 4),
+            "init": gen.choice(draw, ["explicit", "kmeans"]), "trainer": gen.choice(draw, ["ml", "ml", "map"]),
+            "seed": gen.integer(draw, 0, 999), "upd": [bool(u) for u in gen.choice(draw, [(1, 1, 1), (0, 1, 0), (1, 1, 0)])]}
+
+
+@REG.obligation("many_features_valid", g_wide, quick=150, thorough=3000)
+def c_wide(ctx, case):
+    """16..48 features (products of variances leave the double range although every variance is an ordinary number,
+    e.g. 21 features at the default floor or 24 features of magnitude 1e7): the trained GMM stays valid and the
+    log-likelihood of the training rows is finite and equals the SciPy value for the parameters the machine shows."""
+    from bob.learn.em import GMMMachine, KMeansMachine
+    from scipy.special import logsumexp
+
+    X, C = case["X"], int(case["C"])
+    n, F = X.shape
+    r = np.random.default_rng(int(case["seed"]))
+    kw = dict(convergence_threshold=None, max_fitting_steps=1, update_means=case["upd"][0], update_variances=case["upd"][1],
+              update_weights=case["upd"][2])
+    sc = float(case["scale"])
+    means = X[r.integers(0, n, C)] + sc * r.normal(0, 0.5, (C, F))
+    init = {"C": C, "F": F, "weights": np.full(C, 1.0 / C), "means": means, "variances": np.full((C, F), sc * sc)}
+    if case["init"] == "kmeans" and case["trainer"] == "ml":
+        km = KMeansMachine(C, init_method=np.array(means, copy=True), max_iter=2, convergence_threshold=None)
+        g = GMMMachine(C, k_means_trainer=km, **kw)
+    elif case["trainer"] == "map":
+        g = GMMMachine(C, trainer="map", ubm=sut.make_gmm(init, floors=False), **kw)
+    else:
+        g = sut.make_gmm(init, floors=False, trainer="ml", **kw)
+    ctx.note(True, "F>=21" if F >= 21 else "F<21", "kind:" + case["kind"], "scale:1e%d" % int(np.log10(sc)),
+             "init:" + case["init"], "trainer:" + case["trainer"])
+    for k in range(1, int(case["K"]) + 1):
+        g.fit(X)
+        what = "model after iteration %d (%d features)" % (k, F)
+        check_gmm_valid(ctx, g, X, EPS, np.asarray(g.variance_thresholds, float), what)
+        w, mu, var = sut.params_of(g)
+        if (w > 0).all():
+            want = logsumexp(ref.gmm_log_weighted(X, w, mu, var), axis=0)
+            if np.isfinite(want).all():
+                got = np.asarray(g.log_likelihood(X), float)
+                ctx.close(got, want, "log-likelihood of the training rows under the " + what, rtol=1e-9,
+                          atol=1e-9 * (1 + float(np.abs(want).max())))
+
+
 # ---------------------------------------------------------------------------- i-vector
 
 def g_iv(draw):
